@@ -1,4 +1,5 @@
 import IgVerif.Model.Names
+import IgVerif.Lemmas.Bytes
 /-! Freshness of assigned hashes, validity of the alphabets. -/
 namespace IgVerif.Nm
 
@@ -200,5 +201,155 @@ theorem cleanLoop_chars (name : List Nat) (b : Bool) : ∀ c ∈ cleanLoop name 
         · simp at h1; subst h1; simp [okByte, hx]
       · exact ih false c h1
     · exact ih true c h
+
+end IgVerif.Nm
+
+/-! ### the search for a free name always succeeds -/
+namespace IgVerif.Nm
+open IgVerif
+
+theorem letter_inj : ∀ i j : Fin 26, Char.ofNat (97 + i.val) = Char.ofNat (97 + j.val) → i = j := by decide
+
+theorem digitChar_inj : ∀ a b : Fin 10, Char.ofNat (48 + a.val) = Char.ofNat (48 + b.val) → a = b := by decide
+
+theorem letter_ne_digit : ∀ i : Fin 26, ∀ a : Fin 10, Char.ofNat (97 + i.val) ≠ Char.ofNat (48 + a.val) := by decide
+
+theorem map_digit_inj : ∀ (xs ys : List Nat), (∀ d ∈ xs, isDigit d = true) → (∀ d ∈ ys, isDigit d = true) →
+    xs.map Char.ofNat = ys.map Char.ofNat → xs = ys
+  | [], [], _, _, _ => rfl
+  | [], _ :: _, _, _, h => by simp at h
+  | _ :: _, [], _, _, h => by simp at h
+  | x :: xs, y :: ys, hx, hy, h => by
+    simp only [List.map_cons, List.cons.injEq] at h
+    have dx : isDigit x = true := hx x (by simp)
+    have dy : isDigit y = true := hy y (by simp)
+    have bx : 48 ≤ x ∧ x ≤ 57 := by simpa [isDigit] using dx
+    have by' : 48 ≤ y ∧ y ≤ 57 := by simpa [isDigit] using dy
+    have e := digitChar_inj ⟨x - 48, by omega⟩ ⟨y - 48, by omega⟩ (by
+      have e1 : 48 + (x - 48) = x := by omega
+      have e2 : 48 + (y - 48) = y := by omega
+      simp only [e1, e2]; exact h.1)
+    have exy : x = y := by
+      have := congrArg Fin.val e
+      simp only at this
+      omega
+    rw [exy, map_digit_inj xs ys (fun d hd => hx d (by simp [hd])) (fun d hd => hy d (by simp [hd])) h.2]
+
+theorem showNat_inj (a b : Nat) (h : showNat a = showNat b) : a = b := by
+  have ha := readNat_showNat a [] (by intro c hc; simp at hc)
+  have hb := readNat_showNat b [] (by intro c hc; simp at hc)
+  simp only [List.append_nil] at ha hb
+  rw [h, hb] at ha
+  simpa using ha.symm
+
+theorem suffixOf_inj (i j : Nat) (h : suffixOf i = suffixOf j) : i = j := by
+  unfold suffixOf at h
+  by_cases hi : i < 26 <;> by_cases hj : j < 26
+  · simp only [hi, hj, if_true, List.cons.injEq, and_true] at h
+    have := letter_inj ⟨i, hi⟩ ⟨j, hj⟩ h
+    exact congrArg Fin.val this
+  · simp only [hi, hj, if_true, if_false] at h
+    -- a letter against a string of digits
+    obtain ⟨c, cs, hs, hc⟩ := showNat_head j
+    rw [hs] at h
+    simp only [List.map_cons, List.cons.injEq] at h
+    have bc : 48 ≤ c ∧ c ≤ 57 := by simpa [isDigit] using hc
+    have := letter_ne_digit ⟨i, hi⟩ ⟨c - 48, by omega⟩
+    have e2 : 48 + (c - 48) = c := by omega
+    simp only [e2] at this
+    exact absurd h.1 this
+  · simp only [hi, hj, if_true, if_false] at h
+    obtain ⟨c, cs, hs, hc⟩ := showNat_head i
+    rw [hs] at h
+    simp only [List.map_cons, List.cons.injEq] at h
+    have bc : 48 ≤ c ∧ c ≤ 57 := by simpa [isDigit] using hc
+    have := letter_ne_digit ⟨j, hj⟩ ⟨c - 48, by omega⟩
+    have e2 : 48 + (c - 48) = c := by omega
+    simp only [e2] at this
+    exact absurd h.1.symm this
+  · simp only [hi, hj, if_false] at h
+    exact showNat_inj i j (map_digit_inj _ _ (showNat_digits i) (showNat_digits j) h)
+
+theorem has_mem_keys (m : HMap) (k : List Char) (h : m.has k = true) : k ∈ m.map Prod.fst := by
+  induction m with
+  | nil => simp [HMap.has, HMap.find] at h
+  | cons p rest ih =>
+    simp only [HMap.has, HMap.find] at h
+    by_cases hp : (p.1 == k) = true
+    · have : p.1 = k := by simpa using hp
+      simp [this]
+    · have hp' : (p.1 == k) = false := by simpa using hp
+      simp only [hp', Bool.false_eq_true, if_false] at h
+      simp [ih h]
+
+theorem firstFree_none (m : HMap) (old : List Char) : ∀ (fuel i : Nat), firstFree m old fuel i = none →
+    ∀ j, j < fuel → m.has (old ++ suffixOf (i + j)) = true := by
+  intro fuel
+  induction fuel with
+  | zero => intro i _ j hj; omega
+  | succ fuel ih =>
+    intro i h j hj
+    simp only [firstFree] at h
+    split at h
+    · rename_i hhas
+      cases j with
+      | zero => simpa using hhas
+      | succ j =>
+        have := ih (i + 1) h j (by omega)
+        have e : i + 1 + j = i + (j + 1) := by omega
+        rw [e] at this
+        exact this
+    · simp at h
+
+/-- **A free name is always found**: among `m.length + 1` pairwise different candidates at most
+`m.length` can be keys already. -/
+theorem firstFree_total (m : HMap) (old : List Char) : ∃ h, firstFree m old (m.length + 1) 0 = some h := by
+  cases hf : firstFree m old (m.length + 1) 0 with
+  | some h => exact ⟨h, rfl⟩
+  | none =>
+    exfalso
+    have hall := firstFree_none m old (m.length + 1) 0 hf
+    let cands := (List.range (m.length + 1)).map (fun j => old ++ suffixOf j)
+    have hnodup : cands.Nodup := by
+      unfold List.Nodup
+      rw [List.pairwise_map]
+      have h : (List.range (m.length + 1)).Pairwise (· < ·) := List.pairwise_lt_range
+      exact h.imp (by
+        intro a b hab heq
+        have := suffixOf_inj a b (List.append_cancel_left heq)
+        omega)
+    have hsub : cands ⊆ m.map Prod.fst := by
+      intro k hk
+      simp only [cands, List.mem_map, List.mem_range] at hk
+      obtain ⟨j, hj, rfl⟩ := hk
+      have := hall j hj
+      simp only [Nat.zero_add] at this
+      exact has_mem_keys m _ this
+    have := hnodup.length_le_of_subset hsub
+    simp only [cands, List.length_map, List.length_range] at this
+    omega
+
+/-- `hash_function_signature` always hands out a name, except for a signature that is already
+registered under its own hash (the "Function signature repeated" abort) -/
+theorem assign_total (m : HMap) (sig : Sig) (hrep : m.find (hashString sig 5) ≠ some (some sig)) :
+    ∃ h, (assign m sig).2 = some h := by
+  unfold assign
+  simp only
+  split
+  · exact ⟨_, rfl⟩
+  · rename_i entry hfind
+    have hne : (entry == some sig) = false := by
+      cases he : (entry == some sig) with
+      | false => rfl
+      | true =>
+        have : entry = some sig := by simpa using he
+        rw [this] at hfind
+        exact absurd hfind hrep
+    simp only [hne, Bool.false_eq_true, if_false]
+    unfold place
+    split
+    · exact ⟨_, rfl⟩
+    · obtain ⟨h, hh⟩ := firstFree_total (relocate m (hashString sig 5) entry) (hashString sig 5 ++ hashString sig 11)
+      simp [hh]
 
 end IgVerif.Nm
